@@ -130,6 +130,24 @@ def directed(tuftool, replay):
         t('sign', new, '-k', C, '--cross-sign', old, '-i')
         rc = t('sign', new, '-k', A)
         st = replay('root_check', {'path': new})
+        problems = []
+        # second scenario: the same (non-deterministic, RSA) key signs twice; one key must never count twice towards the threshold
+        rsa = [k['path'] for k in keys if k['path'].endswith('.pem')]
+        if rsa:
+            K = rsa[0]; other = A
+            two = os.path.join(work, 'two.json')
+            t('init', two); t('add-key', two, '-k', K, '-r', 'root', '-r', 'snapshot', '-r', 'targets', '-r', 'timestamp'); t('add-key', two, '-k', other, '-r', 'root')
+            t('set-threshold', two, 'root', '2')
+            for r in ROLES[1:]: t('set-threshold', two, r, '1')
+            t('sign', two, '-i', '-k', K)
+            rc2 = t('sign', two, '-k', K)
+            st2 = replay('root_check', {'path': two})
+            if rc2 == 0 and not st2.get('self_verifies'):
+                problems.append({'class': 'sign-not-self-verifying', 'sequence': list(log), 'what': f'signing twice with the same RSA key: the second `sign -k K` (no --ignore-threshold) exited 0 although the root needs 2 root signatures and '
+                                 f'only one key signed (signatures by {[x[:8] for x in st2["signatures"]]})'})
+            if len(st2.get('signatures', [])) != len(set(st2.get('signatures', []))):
+                problems.append({'class': 'duplicate-signature-entries', 'sequence': list(log), 'what': f'root.json lists the same key id twice under signatures: {[x[:8] for x in st2["signatures"]]}'})
+        if problems: return problems
         if rc == 0 and not st.get('self_verifies'):
             return [{'class': 'sign-not-self-verifying', 'sequence': log, 'what': f'`sign -k <one of two root keys>` (no --ignore-threshold, no --cross-sign) exited 0 although the root needs 2 root signatures and carries only one by its own keys '
                                                                                      f'(signatures by {[x[:8] for x in st["signatures"]]}, root role {st["roles"].get("root")}): the signature kept from the earlier --cross-sign run was counted'}]
